@@ -528,7 +528,8 @@ def tconnect_cases(ctx, w):
 # 3. SSHClient.connect
 
 KNOWN = ["none", "same", "other-same-type", "other-type-only", "hashed-same", "hashed-other",
-         "same-under-other-name", "same+other-type"]
+         "same-under-other-name", "same+other-type", "hashed-other-type-only"]
+MISMATCH = ("other-same-type", "other-type-only", "hashed-other", "hashed-other-type-only")
 POLICIES = ["reject", "autoadd", "warning", "custom-raise", "custom-accept"]
 
 
@@ -539,7 +540,9 @@ def cconnect_cases(ctx, w):
     combos = [(k, where, pol, port) for k in KNOWN for where in ("user", "system") for pol in POLICIES
               for port in (22, 2222)]
     if not ctx.thorough:
-        must = [c for c in combos if c[2] in ("reject", "autoadd") and c[1] == "user"]
+        # always: Reject / AutoAdd on the user store, and every stored-key mismatch under every accepting policy
+        must = [c for c in combos if c[1] == "user" and (c[2] in ("reject", "autoadd") or
+                                                         (c[0] in MISMATCH and c[2] in ("warning", "custom-accept")))]
         rest = [c for c in combos if c not in must]
         combos = must + ctx.rng.sample(rest, 24)
     kid = {"rsa": (1, 5), "rsa2": (1, 6), "ed": (2, 7)}
@@ -576,6 +579,8 @@ def cconnect_cases(ctx, w):
             entries = [(HostKeys.hash_host(name), "rsa")]
         elif known == "hashed-other":
             entries = [(HostKeys.hash_host(name), "rsa2")]
+        elif known == "hashed-other-type-only":
+            entries = [(HostKeys.hash_host(name), "ed")]
         elif known == "same-under-other-name":
             entries = [(other, "rsa")]
         elif known == "same+other-type":
@@ -696,8 +701,8 @@ def run(ctx):
                 "injecting NEWKEYS / SERVICE_ACCEPT / USERAUTH_SUCCESS / IGNORE / unknown before or after KEXINIT "
                 "(quick: seeded 60 % sample) or after the handshake, or signing other data; Transport.connect over "
                 "hostkey argument {none, same, other same type, other types} x bad signature x credential; "
-                "SSHClient.connect(sock=) over 8 known_hosts contents x {user, system} x 5 policies x {22, 2222} "
-                "(quick: all Reject/AutoAdd user cases + 24 sampled; thorough: all 160).  Every case is a distinct "
+                "SSHClient.connect(sock=) over 9 known_hosts contents x {user, system} x 5 policies x {22, 2222} "
+                "(quick: all Reject/AutoAdd user cases, every stored-key mismatch x accepting policy, + 24 sampled; thorough: all 180).  Every case is a distinct "
                 "script and reaches the guard / gating / comparison code, hence non-trivial.")
     ctx.trusted += ["model coq/Model/C17.v is hand-written; tied to transport.py / client.py / auth_handler.py by "
                     "gen/c17.py (AST ordering checks, fail-closed) and this scripted differential run",
